@@ -27,7 +27,8 @@ func (m *multiD) stEnqueue(p, t int, via string) {
 // kernel), "empty" (no kernel).
 func smallTrace(r *vlib.PRNG, name, force string) *traceD {
 	t := &traceD{Name: name, Mock: r.Bool(), Repeat: 1}
-	c := &caseD{Name: name, Style: styleD{BlankAfterWarp: 1 + r.Intn(2), ShuffleBlocks: r.Chance(1, 5)}}
+	form := genForm(r.Fork("form"))
+	c := &caseD{Name: name, Style: styleD{BlankAfterWarp: 1 + r.Intn(2), ShuffleBlocks: r.Chance(1, 5), Form: form}}
 	t.C = c
 	sc := sizeClass{3, 5, 4, 8}
 	if r.Chance(1, 6) {
